@@ -7,6 +7,7 @@ package main
 import (
 	"errors"
 	"fmt"
+	"os"
 	"sort"
 	"strconv"
 	"strings"
@@ -32,22 +33,22 @@ const lifeDelay = 250 // rebalance delay: deadlines fall 50 ms off the grid
 const lifeOff = 20    // ops execute at grid + lifeOff
 
 type lifeEnv struct {
-	buf    *obuf
-	cl     *fakeClient
-	meta   *fakeMeta
-	co     *fakeConsumer
-	disc   *fakeDisc
-	eh     *fakeEH
-	st     stream.Stream
-	stop   chan struct{}
-	auto   bool
-	dyn    bool
-	next   map[uint16]uint64
-	start  time.Time
-	now    int // model time in ms
-	stopped bool
+	buf          *obuf
+	cl           *fakeClient
+	meta         *fakeMeta
+	co           *fakeConsumer
+	disc         *fakeDisc
+	eh           *fakeEH
+	st           stream.Stream
+	stop         chan struct{}
+	auto         bool
+	dyn          bool
+	next         map[uint16]uint64
+	start        time.Time
+	now          int // model time in ms
+	stopped      bool
 	pendingMarks []string
-	mu     sync.Mutex
+	mu           sync.Mutex
 }
 
 func newLifeEnv(delay int, dyn, auto bool) *lifeEnv {
@@ -584,6 +585,12 @@ func genLife(r *Rng, kind string) lifeCase {
 			if inWindow {
 				tag["debounce"] = true
 			}
+			if dyn {
+				// dynamic membership reopens through AfterFunc(0): whether a following notification still finds `balancing` set (and then
+				// re-arms the timer with s.Rebalance, "reassigned") is decided within microseconds the generator cannot see; a shutdown
+				// after that would let the timer fire into the closed stream and kill the in-process harness (false alarm 12)
+				noShutdown = true
+			}
 			inWindow = true
 			windowTicks = 0
 		case x < 70:
@@ -679,6 +686,9 @@ func runLifeCase(lc lifeCase, salt int) []string {
 	delay, _ := strconv.Atoi(f[1])
 	e := newLifeEnv(delay, f[2] == "1", f[3] == "1")
 	e.start = time.Now()
+	if flushEachLine {
+		fmt.Fprintf(os.Stderr, "life-case-stream %p %s | %s\n", e.st, lc.reset, strings.Join(lc.ops, " ; "))
+	}
 	defer e.cl.releaseHolds()
 	reals := []string{"ok"}
 	dead := false
@@ -723,7 +733,13 @@ func runLife(c *Ctx, kind string) {
 		go func(i int) {
 			defer wg.Done()
 			defer func() { <-sem }()
+			if flushEachLine { // VERIF_FLUSH=1: journal of started / finished cases on stderr (a crash in a timer goroutine kills all of them)
+				fmt.Fprintf(os.Stderr, "life-case-start %d %s | %s\n", i, cases[i].reset, strings.Join(cases[i].ops, " ; "))
+			}
 			results[i] = runLifeCase(cases[i], i)
+			if flushEachLine {
+				fmt.Fprintf(os.Stderr, "life-case-end %d\n", i)
+			}
 		}(i)
 	}
 	wg.Wait()
